@@ -254,7 +254,7 @@ func c03(c *Ctx) {
 	// ---- C03.4 index flush ordering ------------------------------------------------------------
 	c03Index(c)
 	// ---- C03.5 chunk rotation and single-file sync ----------------------------------------------
-	c03Appendables(c)
+	c03Appendables(c, "C03.5")
 	// ---- C03.6 recovery guards -----------------------------------------------------------------
 	c03Recovery(c)
 	// ---- C03.7 storage errors are not dropped --------------------------------------------------
